@@ -294,6 +294,42 @@ def check_against_inprocess(res: CompResult, dist: dict[str, Any], base: dict[st
             fire("worker-report-order", f"{label}: worker {w} produced {seq[:5]}..., the controller published {published.get(w, [])[:5]}...")
 
 
+def check_crash_run(res: CompResult, d: dict[str, Any], n: int, mode: str, ops: list[str]) -> None:
+    """C03 / C01 on a real run in which `test_crash` kills its worker once: every other test ran exactly once, the crashed
+    test was started once and not again, exactly one 'crashed while running' report names the dead worker"""
+    def fire(prop: str, sig: str, what: str) -> None:
+        res.violations.append(Violation(prop, "e2e.crash", what, sig, ops, {"args": d["args"], "out": d["out"][-500:]}))
+
+    each = mode == "each"
+    protos = [x for x in d["records"] if x["k"] == "proto"]
+    starts = Counter((x["item"].split("@")[0], x["worker"] if each else None) for x in protos)
+    reports = [x for x in d["records"] if x["k"] == "report" and x["side"] == "ctl"]
+    crash_reps = [x for x in reports if x["when"] == "???"]
+    if each:
+        return
+    for (item, _), c in starts.items():
+        if c != 1:
+            fire("C03", "e2e-test-started-twice", f"{item} was started {c} times in a run with one worker crash")
+    called = {x["nodeid"].split("@")[0] for x in reports if x["when"] == "call"} | {x["nodeid"].split("@")[0] for x in reports if x["when"] == "setup" and x["outcome"] != "passed"}
+    collected = {x["item"].split("@")[0] for x in protos}
+    ids_all = {x["nodeid"].split("@")[0] for x in reports if x["when"] != "???"}
+    crashed_flag = any(x["nodeid"].split("@")[0].endswith("::test_crash") for x in crash_reps)
+    if len(crash_reps) != 1 or not crashed_flag:
+        fire("C03", "e2e-crash-report-count", f"expected exactly one crash report for test_crash, got {[(x['nodeid'], x['node']) for x in crash_reps]}")
+    else:
+        rep = crash_reps[0]
+        ran_on = [x["worker"] for x in protos if x["item"].split("@")[0].endswith("::test_crash")]
+        if ran_on and rep["node"] != ran_on[0]:
+            fire("C03", "e2e-crash-report-wrong-worker", f"test_crash died on {ran_on[0]}, the report names {rep['node']}")
+        if "crashed while running" not in rep["longrepr"]:
+            fire("C03", "e2e-crash-message", f"crash report text: {rep['longrepr'][:100]!r}")
+    for want in ("::test_before", "::test_after"):
+        if not any(i.endswith(want) for i in ids_all):
+            fire("C03", "e2e-test-lost-after-crash", f"no report for {want} (reports for {sorted(ids_all)[:6]}...)")
+    if d["rc"] != 1:
+        fire("C03", "e2e-crash-exit-status", f"exit status {d['rc']} (expected 1: one failed test)")
+
+
 def e2e(tier: str, seed: int, what: str) -> CompResult:
     res = CompResult(component=f"e2e.{what}")
     res.rule = ("real `pytest -n` subprocess runs on generated suites with a recording conftest; a run is non-trivial if >=2 workers executed tests; "
@@ -305,7 +341,7 @@ def e2e(tier: str, seed: int, what: str) -> CompResult:
     jobs = []
     for si in range(nsuites):
         root = scratch / f"s{si}"
-        files = gen_suite(rng, with_warnings=(what == "warnings"), with_crash=(what == "identity" and si % 2 == 0), groups=True)
+        files = gen_suite(rng, with_warnings=(what == "warnings"), with_crash=(what == "crash" or (what == "identity" and si % 2 == 0)), groups=True)
         write_suite(root, files)
         combos = [(rng.choice(modes[:5]), rng.choice([1, 2, 3]))] if tier == "quick" else [(m, rng.choice([1, 2, 4])) for m in rng.sample(modes[:5], 3)]
         jobs.append((root, files, combos))
@@ -313,7 +349,7 @@ def e2e(tier: str, seed: int, what: str) -> CompResult:
     def one(job: tuple) -> list[tuple]:
         root, files, combos = job
         out = []
-        base = run_pytest(root, ["-n0"], "base") if what != "identity" else None
+        base = run_pytest(root, ["-n0"], "base") if what not in ("identity", "crash") else None
         for mode, n in combos:
             d = run_pytest(root, ["-n", str(n), "--dist", mode], f"{mode}{n}")
             out.append((root, files, mode, n, base, d))
@@ -331,11 +367,13 @@ def e2e(tier: str, seed: int, what: str) -> CompResult:
         if len(workers) >= 2:
             res.distinct.add(h((files, d["args"])))
         if d["rc"] in (3, 4, 124):
-            res.violations.append(Violation("C17" if what == "identity" else "C04", f"e2e.{what}", f"pytest {d['args']} ended with status {d['rc']}: {d['out'][-300:]}",
+            res.violations.append(Violation({"identity": "C17", "crash": "C03"}.get(what, "C04"), f"e2e.{what}", f"pytest {d['args']} ended with status {d['rc']}: {d['out'][-300:]}",
                                             f"e2e-internal-error:{d['rc']}", ops, {}))
             continue
         if what == "identity":
             check_identities(res, d, n, ops)
+        elif what == "crash":
+            check_crash_run(res, d, n, mode, ops)
         elif what == "reports" and base is not None:
             check_against_inprocess(res, d, base, ops, f"--dist {mode} -n{n}")
         elif what == "warnings" and base is not None:
